@@ -202,6 +202,7 @@ C03_PipelineAll ==
 RECURSIVE Ancestors(_)
 Ancestors(q) == IF q = 0 THEN {} ELSE {q} \cup (IF Q(q).parent = q THEN {} ELSE Ancestors(Q(q).parent))
 InSubtree(p, q) == q \in Ancestors(J(JobOf(p)).queue)
+InSubtreeQ(y, q) == q \in Ancestors(y)      \* queue y lies in the subtree of queue q (y = q included)
 \* pods charged to the queues after the first i decisions
 \* (the newest bind / nomination / eviction of a pod decides; a pod bound and then evicted in the same
 \*  cycle is not charged)
@@ -492,12 +493,73 @@ ReclaimVictimsExist ==
 C05_Reclaim ==
   (AtCycleEnd /\ ~failed /\ cyc = 1 /\ IdenticalClaimants /\ Uniform /\ ClusterFull) =>
      ((ClaimantsWithinQuota /\ ReclaimVictimsExist) => \A p \in Claimants : PlacedInCycle(p))
+\* (a non-preemptible claimant may preempt only while the non-preemptible allocation stays within the deserved quota)
+NpClaimantsWithinQuota ==
+  J(JobOf(Claimant)).preempt = 0 =>
+     \A q \in Ancestors(J(JobOf(Claimant)).queue) : Q(q).gq = -1 \/ QGpu(q, 0, TRUE) + 1000 * KClaim <= Q(q).gq
 PreemptVictimsExist ==
+  NpClaimantsWithinQuota /\
   Cardinality({v \in Pods : /\ S[v].st = "running" /\ J(JobOf(v)).preempt = 1 /\ J(JobOf(v)).queue = J(JobOf(Claimant)).queue
                             /\ J(JobOf(v)).prio < J(JobOf(Claimant)).prio}) >= KClaim
 C05_Preempt ==
   (AtCycleEnd /\ ~failed /\ cyc = 1 /\ IdenticalClaimants /\ Uniform /\ ClusterFull) =>
      (PreemptVictimsExist => \A p \in Claimants : PlacedInCycle(p))
+
+\* The same two clauses claimant by claimant, for pending single-pod jobs of SEVERAL queues, priorities and
+\* preemptibilities in one uniform full cluster (profile unobs2). A claimant is *entitled* when the antecedent of
+\* the property holds for it whatever the other claimants do: every claimant of the scenario could be served from
+\* the same over-quota queue (so no bystander can use up the victims), and all claimants below each of its
+\* queue's ancestors together stay within that ancestor's deserved quota. Claimants that are not entitled
+\* (over quota, non-preemptible beyond the non-preemptible quota, ...) are bystanders: nothing is demanded for
+\* them, but their failures must not keep an entitled claimant from being served.
+SinglePodClaimants == Claimants # {} /\ \A p \in Claimants : Cardinality(PodsOf(JobOf(p))) = 1
+GpuQuotasOnly == \A q \in Queues : Q(q).cq = -1 /\ Q(q).mq = -1 /\ Q(q).cl = -1 /\ Q(q).ml = -1
+QueueOfPod(p) == J(JobOf(p)).queue
+\* a non-preemptible claimant that alone would already put some ancestor's non-preemptible allocation above its
+\* deserved quota can never be placed in this cycle (non-preemptible pods are not evicted): it takes no victim
+Hopeless(c) == J(JobOf(c)).preempt = 0 /\ \E q \in Ancestors(QueueOfPod(c)) : Q(q).gq # -1 /\ QGpu(q, 0, TRUE) + 1000 > Q(q).gq
+Hopeful == {c \in Claimants : ~Hopeless(c)}
+KHopeful == Cardinality(Hopeful)
+ClaimUnder(q) == {c \in Hopeful : InSubtree(c, q)}
+NpClaimUnder(q) == {c \in ClaimUnder(q) : J(JobOf(c)).preempt = 0}
+\* x = a queue levelled against p's (their parents coincide or are both top level) that runs preemptible pods,
+\* holds no claimant and stays above its deserved quota until every hopeful claimant has taken a victim;
+\* below the common ancestors, every queue of p's chain stays within its deserved quota with all hopeful
+\* claimants under it; a non-preemptible p keeps every ancestor's non-preemptible allocation within quota
+EntitledReclaim(p) ==
+  /\ ~Hopeless(p)
+  /\ J(JobOf(p)).preempt = 0 =>
+        \A q \in Ancestors(QueueOfPod(p)) : Q(q).gq = -1 \/ QGpu(q, 0, TRUE) + 1000 * Cardinality(NpClaimUnder(q)) <= Q(q).gq
+  /\ \E x \in Queues :
+       /\ x = StepDownQ(x, QueueOfPod(p)) /\ x \notin Ancestors(QueueOfPod(p)) /\ \A c \in Claimants : ~InSubtree(c, x)
+       /\ Q(x).gq # -1 /\ QGpu(x, 0, FALSE) - 1000 * (KHopeful - 1) > Q(x).gq
+       /\ Cardinality({v \in Pods : S[v].st = "running" /\ J(JobOf(v)).preempt = 1 /\ InSubtree(v, x)}) >= KHopeful
+       /\ \A q \in Ancestors(QueueOfPod(p)) \ Ancestors(x) :
+             Q(q).gq = -1 \/ QGpu(q, 0, FALSE) + 1000 * Cardinality(ClaimUnder(q)) <= Q(q).gq
+\* A pod nominated earlier in the cycle for a preemptible job of ANOTHER queue is the first potential victim the
+\* solver offers to p's statement; when taking it is not allowed the accumulated victim set stays invalid and the
+\* attempt fails although other victims exist (known finding, one cycle of delay). Judged separately.
+NominatedElsewhere(p) ==
+  \E i \in Dec : Piped(i) /\ J(JobOf(D[i].p)).preempt = 1 /\ QueueOfPod(D[i].p) # QueueOfPod(p)
+C05_ReclaimEach ==
+  (AtCycleEnd /\ ~failed /\ cyc = 1 /\ SinglePodClaimants /\ Uniform /\ GpuQuotasOnly /\ ClusterFull) =>
+     \A p \in Claimants : (EntitledReclaim(p) /\ ~NominatedElsewhere(p)) => PlacedInCycle(p)
+C05_ReclaimEachAfterNomination ==
+  (AtCycleEnd /\ ~failed /\ cyc = 1 /\ SinglePodClaimants /\ Uniform /\ GpuQuotasOnly /\ ClusterFull) =>
+     \A p \in Claimants : (EntitledReclaim(p) /\ NominatedElsewhere(p)) => PlacedInCycle(p)
+\* preempt: all claimants in one queue, any mix of priorities and preemptibility; victims of strictly lower priority
+\* than every claimant, enough for all of them; a non-preemptible claimant must stay within the deserved quota
+\* (all non-preemptible claimants together, up the chain)
+OneClaimantQueue == \A p, c \in Claimants : QueueOfPod(p) = QueueOfPod(c)
+EntitledPreempt(p) ==
+  /\ ~Hopeless(p)
+  /\ Cardinality({v \in Pods : /\ S[v].st = "running" /\ J(JobOf(v)).preempt = 1 /\ QueueOfPod(v) = QueueOfPod(p)
+                                /\ \A c \in Claimants : J(JobOf(v)).prio < J(JobOf(c)).prio}) >= KClaim
+  /\ J(JobOf(p)).preempt = 0 =>
+        \A q \in Ancestors(QueueOfPod(p)) : Q(q).gq = -1 \/ QGpu(q, 0, TRUE) + 1000 * Cardinality(NpClaimUnder(q)) <= Q(q).gq
+C05_PreemptEach ==
+  (AtCycleEnd /\ ~failed /\ cyc = 1 /\ SinglePodClaimants /\ OneClaimantQueue /\ Uniform /\ GpuQuotasOnly /\ ClusterFull) =>
+     \A p \in Claimants : EntitledPreempt(p) => PlacedInCycle(p)
 
 (***************************************************************************)
 (* C04 - hard placement constraints for every bind and nomination.         *)
